@@ -115,6 +115,20 @@ class Scenario:
         self.units.append(u)
         return u
 
+    def add_concrete(self, u):
+        """unit whose baseline AND counted votes are concrete (u.base, u.res dicts); expected vote concrete"""
+        v = u.vals
+        v["results_turnout"] = u.res["turnout"]
+        for p in self.parties:
+            v["results_" + p] = u.res[p]
+        if u.in_baseline:
+            v["baseline_turnout"] = u.base["turnout"]
+            for p in self.parties:
+                v["baseline_" + p] = u.base[p]
+        v["pev"] = u.pev if u.pev is not None else (100 if u.kind == "rep" else 50)
+        self.units.append(u)
+        return u
+
     # ------------------------------------------------------------------ frames
     def frames(self, extra_pre_cols=None):
         pre_rows, cur_rows = [], []
